@@ -502,10 +502,10 @@ Section Faithful.
                        match t with
                        | PPath true segs =>
                            match path_is segs (alloc_path ["boxed"; "Box"]) with
-                           | Some [inner] => if is_boxed f then Some inner else None
-                           | _ => if is_boxed f then None else Some t
+                           | Some [inner] => if is_boxed_gen f then Some inner else None
+                           | _ => if is_boxed_gen f then None else Some t
                            end
-                       | _ => if is_boxed f then None else Some t
+                       | _ => if is_boxed_gen f then None else Some t
                        end in
                      match t_unboxed with
                      | None => None
